@@ -304,6 +304,9 @@ def gen_tower(rng, n, tier):
         # Frobenius: every power 0..degree+1 once per run on a dense element, plus large powers
         powers = list(range(0, deg + 2)) + [rng.randrange(deg, 26), 25] if tier == "thorough" else [0, 1, 2, rng.randrange(0, deg + 2), rng.randrange(deg, 26)]
         if pfx == "f12_" and tier != "thorough": powers = [1, 2, 3, rng.randrange(0, 14)]
+        # the power is an `unsigned int`: values beyond 16 bits (an index reduction done in a narrower type is exact below 65536), each
+        # residue class modulo the period, and the extremes
+        powers += [65536, 65537, 65538, (1 << 17) + 3, (1 << 24) + rng.randrange(12), 1 << 31, (1 << 32) - 1, (1 << 32) - rng.randrange(2, 14)]
         for kk in powers:
             L.append("%sfrob %s %d %s" % (pfx, gen(None), kk, rng.choice(["n", "a"])))
     # inverses of elements whose NORM (a derived quantity) has the stored limbs 1, 2 or q-1 (value k/R): fast paths keyed on a computed
@@ -1110,6 +1113,8 @@ def gen_wkdibe(rng, n, tier):
                       ([(0, nz[0], False), (3, nz[3], False)], [(0, nz[0], False), (1, nz[1], True), (3, nz[3], False)]),
                       ([(1, nz[1], False)], [(1, nz[1], True)]),
                       ([], [(2, nz[2], True)]),
+                      ([(1, nz[1], True)], [(1, (nz[1] + 1) % R or 3, True)]),          # stays flagged, identifier changes: the product must follow
+                      ([(0, nz[0], False), (2, nz[2], True)], [(0, nz[0], False), (2, (nz[2] + 5) % R or 3, True)]),
                       ([(0, nz[0], True)], [(0, nz[0], True), (1, nz[1], True), (2, nz[2], True), (3, nz[3], True)])]
         for (fa_, ta_) in flag_cases:
             rf_ = S.pre(p0, fa_); rt_ = S.adjustpre(rf_, p0, fa_, ta_)
